@@ -9,9 +9,6 @@ import DateutilVerif.Spec.RRuleSupported
 namespace RRule
 open Cal
 
-/-- an absent BY list allows every value -/
-def listedO (o : Option (List Int)) (x : Int) : Bool := o.isNone || (o.getD []).contains x
-
 structure SecondlyBHMArgs (a : Args) : Prop where
   freq : a.freq = 6
   interval : 1 ≤ a.interval
